@@ -92,6 +92,24 @@ t("comp_in_fn", "def g(p):\n    return [i + p for i in c]\nx = g(1)", star=True)
 t("comp_nested_fn", "def g(p):\n    return [[i + j + p for j in c] for i in c]\nx = g(1)")
 t("comp_async", "async def g():\n    return [i async for i in ag()]", lo=(3, 6))
 
+# comprehension variables captured by inner scopes (3.12+ inlines comprehensions: hidden / cell locals)
+t("comp_capture_lambda", "x = [(lambda: i)() for i in c]", star=True)
+t("comp_capture_lambda_list", "fs = [lambda: i for i in c]\nx = [f() for f in fs]\ndel fs")
+t("comp_capture_genexp", "x = [list(i + j for j in c) for i in c]")
+t("comp_capture_dict", "x = sorted({i: (lambda: i)() for i in c}.items())")
+t("comp_walrus", "x = [w := i for i in c]\ny = w", lo=(3, 8))
+t("comp_class_var", "class K(object):\n    v = [1, 2]\n    w = [i for i in v]\nx = K.w")
+t("comp_two_iters_cond", "x = [i * j for i in c if i for j in c if j > i]")
+t("comp_in_lambda", "g = lambda p: [i + p for i in c]\nx = g(1)")
+t("deco_factory", "def deco(arg):\n    def wrap(fn):\n        def inner(*a):\n            return (fn(*a), arg)\n        return inner\n    return wrap\n@deco(5)\ndef g(p):\n    return p\nx = g(1)", star=True)
+t("clo_three_deep", "def g(p, q):\n    r = q\n    def h(s):\n        t_ = s\n        def k(u):\n            return (p, r, t_, u)\n        return k\n    return h(1)(2)\nx = g(3, 4)")
+t("clo_default_capture", "def g(p):\n    def h(q=p):\n        return (lambda: (p, q))()\n    return h()\nx = g(1)")
+t("clo_global_nonlocal", "gg = 0\ndef g():\n    v = 1\n    def h():\n        global gg\n        nonlocal v\n        gg += 1\n        v += 1\n        return (gg, v)\n    return h()\nx = g()", lo=(3, 0))
+t("fn_all_kinds", "def g(p, q, /, r, *a, s=1, t_, **k):\n    return (p, q, r, a, s, t_, sorted(k))\nx = g(1, 2, 3, 4, t_=5, z=6)", lo=(3, 8), star=True)
+t("fn_posonly_defaults", "def g(p, q=2, /, r=3):\n    return (p, q, r)\nx = g(1)", lo=(3, 8))
+t("type_param_default", "def g[T = int](p: T) -> T:\n    return p\nx = g(1)", lo=(3, 13))
+t("type_param_class", "class K[T]:\n    def m(self, p: T) -> T:\n        return p\nx = K().m(1)", lo=(3, 12))
+
 # ---- control flow -----------------------------------------------------------
 t("cf_if", "if a:\n    x = 1\nelif b:\n    x = 2\nelse:\n    x = 3", star=True)
 t("cf_while", "x = 0\nwhile x < 10:\n    x += 1\n    if x == 3:\n        continue\n    if x == 7:\n        break\nelse:\n    x = -1", star=True)
@@ -125,6 +143,13 @@ t("ex_try_in_fn", "def g():\n    try:\n        return 1 // 0\n    except ZeroDiv
 t("ex_try_loop", "x = 0\nfor i in c:\n    try:\n        if i == 2:\n            continue\n        x += 1\n    finally:\n        x += 10")
 t("ex_bare_raise", "try:\n    try:\n        1 // 0\n    except ZeroDivisionError:\n        raise\nexcept Exception:\n    x = 1")
 
+t("ex_finally_return_loop", "def g():\n    for i in c:\n        try:\n            if i == 2:\n                return i\n            if i == 1:\n                continue\n        finally:\n            pass\n    return -1\nx = g()", star=True)
+t("ex_finally_break", "x = 0\nfor i in c:\n    try:\n        if i == 2:\n            break\n    finally:\n        x += 1")
+t("ex_with_return", "class CM(object):\n    def __enter__(self):\n        return 1\n    def __exit__(self, *a):\n        return False\ndef g():\n    with CM() as w:\n        return w\nx = g()")
+t("ex_except_multi", "try:\n    x = d['zz']\nexcept (KeyError, IndexError) as e:\n    x = 1\nexcept ValueError:\n    x = 2\nexcept Exception:\n    x = 3")
+t("ex_star_multi", "try:\n    raise ExceptionGroup('g', [ValueError(1), KeyError(2)])\nexcept* ValueError:\n    x = 1\nexcept* KeyError:\n    y = 2", lo=(3, 11))
+t("match_class_guard", "class P(object):\n    __match_args__ = ('u', 'v')\n    def __init__(self, u, v):\n        self.u = u\n        self.v = v\nmatch P(1, 2):\n    case P(u=1, v=w) if w > 5:\n        x = 'big'\n    case P(1, w) | P(w, 1):\n        x = w\n    case [1, *rest] | (2, *rest):\n        x = rest\n    case {'k': 1, **kw}:\n        x = kw\n    case str() | None:\n        x = 's'", lo=(3, 10))
+
 # ---- generators / async -------------------------------------------------------
 t("gen_yield", "def g():\n    yield 1\n    yield 2\nx = list(g())", star=True)
 t("gen_yield_loop", "def g(n):\n    for i in range(n):\n        y = yield i\nx = list(g(3))", star=True)
@@ -136,6 +161,10 @@ t("gen_async_with", "async def g(cm):\n    async with cm as w:\n        return w
 t("gen_async_gen", "async def g():\n    yield 1\n    await h()\n    yield 2\nx = g.__name__", lo=(3, 6))
 t("gen_async_genexp", "async def g(it):\n    return (i async for i in it)\nx = g.__name__", lo=(3, 6))
 t("gen_yield_try", "def g():\n    try:\n        yield 1\n    finally:\n        yield 2\nx = list(g())")
+
+t("gen_async_comp_capture", "async def g(it):\n    return [(lambda: i) async for i in it]\nx = g.__name__", lo=(3, 6))
+t("gen_send_throw", "def g():\n    try:\n        v = yield 1\n        while v:\n            v = yield v\n    except ValueError:\n        yield -1\nit = g()\nx = (next(it), it.send(5), it.throw(ValueError))")
+t("gen_async_with_return", "async def g(cm):\n    async with cm as w:\n        for i in w:\n            if i:\n                return i\n    return None\nx = g.__name__", lo=(3, 5))
 
 # ---- calls / attrs ----------------------------------------------------------
 t("call_mixed", "def g(*p, **k):\n    return (p, sorted(k))\nx = g(a, *c, k=1, **d)", star=True)
